@@ -32,7 +32,7 @@ pub fn liveness_probe(it: &mut Interp) -> Result<(), Failure> {
         Op::Settle,
         Op::Subscribe { c: base, filters: vec![("vprobe/t".into(), 1)], sub_id: None, notify: true },
         Op::Settle,
-        Op::Publish { c: base + 1, topic: "vprobe/t".into(), qos: 1, retain: false, size: 12, props: None, notify: true },
+        Op::Publish { c: base + 1, topic: "vprobe/t".into(), qos: 1, retain: false, size: 12, props: None, notify: true, dup: false },
         Op::Settle,
     ];
     // the probe clients are always asserted on
